@@ -390,9 +390,9 @@ theorem slicePrefix_append (pre c : String) : slicePrefix pre.length (pre ++ c) 
   unfold slicePrefix
   rw [String.toList_append, ← String.length_toList, List.drop_left, String.ofList_toList]
 
-theorem sliceSuffix_append (suf c : String) (h : suf.length ≠ 0) : sliceSuffix suf.length (c ++ suf) = c := by
+theorem sliceSuffix_append (suf c : String) : sliceSuffix suf.length (c ++ suf) = c := by
   unfold sliceSuffix
-  rw [if_neg h, String.toList_append, List.length_append, ← String.length_toList, Nat.add_sub_cancel,
+  rw [String.toList_append, List.length_append, ← String.length_toList, Nat.add_sub_cancel,
     List.take_left, String.ofList_toList]
 
 theorem affix_spec {isSuffix : Bool} {n : Nat} {frame : List Name} {p : Parent} {deps : List Dep} {rw : Rw}
@@ -414,13 +414,13 @@ theorem prefix_sources {pre : String} {frame : List Name} {p : Parent} {deps : L
   rw [List.contains_iff_mem, List.mem_map]
   exact ⟨pre ++ c, by rw [detProj_toList]; exact parent_mem_union hreq, slicePrefix_append pre c⟩
 
-theorem suffix_sources {suf : String} (hs : suf.length ≠ 0) {frame : List Name} {p : Parent} {deps : List Dep}
+theorem suffix_sources {suf : String} {frame : List Name} {p : Parent} {deps : List Dep}
     {c : Name} (hc : c ∈ frame) (hreq : c ++ suf ∈ p.cols) :
     c ∈ frame.filter (((detProj p deps []).toList.map (sliceSuffix suf.length)).contains ·) := by
   rw [List.mem_filter]
   refine ⟨hc, ?_⟩
   rw [List.contains_iff_mem, List.mem_map]
-  exact ⟨c ++ suf, by rw [detProj_toList]; exact parent_mem_union hreq, sliceSuffix_append suf c hs⟩
+  exact ⟨c ++ suf, by rw [detProj_toList]; exact parent_mem_union hreq, sliceSuffix_append suf c⟩
 
 /-! ### string cancellation, Concat -/
 
